@@ -54,6 +54,15 @@ sim::Json make_token(sim::Rng& rng, bool cmdline, bool allow_errors) {
                                    "mip:roun", "round_", "sol:stu", "solstu", "tech:flagop", "flagoptx", "lbpe", "alg:lbpenn", "wc:1", "1:val", "wc_1_va", "c:1:val"};
       name = near[rng.below(sizeof near / sizeof *near)];
     }
+    if (rng.chance(0.25)) {  // a registered name with one foreign byte (non-ASCII, control) before, after or inside it; a name made of such bytes only
+      static const char* junk[] = {"\xff", "\x80", "\xc3\xa9", "\x01", "\x1f", "\x7f", "\xa0", "\xe2\x80\x8b"};
+      const OptDef& d0 = defs()[rng.below(defs().size())];
+      std::string base = rng.chance(0.5) ? d0.canon : d0.syn[rng.below(d0.syn.size())];
+      if (base.find('*') != std::string::npos) base = "tech:intopt";
+      std::string j = junk[rng.below(sizeof junk / sizeof *junk)];
+      int where = (int)rng.below(4);
+      name = where == 0 ? base + j : where == 1 ? j + base : where == 2 ? base.substr(0, base.size() / 2) + j + base.substr(base.size() / 2) : j + j;
+    }
     t.set("text", name + "=" + std::to_string(rng.range(1, 99)));
     t.set("sem", "unknown");
     return t;
